@@ -159,8 +159,14 @@ func (e *env) runInsufficient(b batch, rnd *rand.Rand) {
 	}
 	wg.Wait()
 	live := false
+	sampled := map[string]bool{}
 	for _, k := range cases {
 		cr, resp, v := k.Cred, k.Resp, k.Verdict
+		if b.No%9 == 0 && !sampled[v] && (v == vRejected || v == vEscaped || v == vAnon) {
+			sampled[v] = true
+			c.Sample(map[string]any{"flavour": e.tag(), "case": b.Key, "need": b.Need.String(), "credentials": cr.key(),
+				"request": k.Req.String(), "authorization_header": trunc(k.Req.Headers["Authorization"], 60), "status": resp.Status, "body": trunc(resp.Body, 80), "verdict": v})
+		}
 		if strings.Contains(resp.Body, "user is locked") {
 			c.Inconclusive("answer-was-user-locked:"+e.tag(), 1)
 		}
@@ -265,7 +271,9 @@ func (e *env) report(b batch, cases []oneCase, diff []string) {
 	classesEsc := map[string]bool{}
 	for _, k := range cases {
 		if noIdentity[k.Cred.Class] {
-			noIDTotal++
+			if k.Verdict == vRejected || k.Verdict == vEscaped {
+				noIDTotal++ // requests the client library refused to send are not judged
+			}
 			if k.Verdict == vEscaped {
 				noIDEsc++
 				escNoID = append(escNoID, k)
@@ -372,6 +380,25 @@ func (e *env) repair() {
 			for _, m := range column(res, 0) {
 				if !wantMst[m] {
 					_, _ = e.adminQ(db, fmt.Sprintf(`DROP MEASUREMENT "%s"`, m))
+				}
+			}
+		}
+	}
+	// continuous queries and subscriptions (a /query statement served to the wrong user may leave one)
+	if res, err := e.adminQ("", "SHOW CONTINUOUS QUERIES"); err == nil && len(res.Results) > 0 {
+		for _, se := range res.Results[0].Series {
+			for _, v := range se.Values {
+				if len(v) > 0 {
+					_, _ = e.adminQ("", fmt.Sprintf(`DROP CONTINUOUS QUERY "%v" ON "%s"`, v[0], se.Name))
+				}
+			}
+		}
+	}
+	if res, err := e.adminQ("", "SHOW SUBSCRIPTIONS"); err == nil && len(res.Results) > 0 {
+		for _, se := range res.Results[0].Series {
+			for _, v := range se.Values {
+				if len(v) > 1 {
+					_, _ = e.adminQ("", fmt.Sprintf(`DROP SUBSCRIPTION "%v" ON "%s"."%v"`, v[1], se.Name, v[0]))
 				}
 			}
 		}
